@@ -400,7 +400,11 @@ func GenerateOneofDiscriminatedUnionType(p Printer, msgName string, info *annota
 			for _, childField := range variant.Field.Message.Fields {
 				jsonName := childField.Desc.JSONName()
 				tsType := TSFieldType(childField)
-				sb.WriteString(fmt.Sprintf("; %s: %s", jsonName, tsType))
+				optional := ""
+				if IsOptionalField(childField) {
+					optional = "?"
+				}
+				sb.WriteString(fmt.Sprintf("; %s%s: %s", jsonName, optional, tsType))
 			}
 			branch += sb.String()
 			branch += " }"
